@@ -200,9 +200,9 @@ Section StructStep.
     assign env t (rewrap isptr u (VStruct n fs)) (f :: rest) x = sstep fs f rest x.
   Proof.
     intros. rewrite assign_cons, Hre. unfold sstep.
-    destruct isptr eqn:E.
+    generalize Hu. destruct isptr; intro Hu'.
     - reflexivity.
-    - simpl. rewrite (Hu eq_refl). reflexivity.
+    - rewrite (Hu' eq_refl). reflexivity.
   Qed.
 
   Lemma sstep_comm : forall fs f pr g qr x y,
@@ -253,38 +253,26 @@ Section StructStep.
       { intros f0 g0 P Q X Y a Hne. rewrite assign_rewrap. unfold sstep.
         destruct (lookup_field env n g0) as [[[] gt]|]; try reflexivity.
         rewrite aget_ains_other by congruence. reflexivity. }
-      unfold sstep at 1 3.
-      destruct (lookup_field env n f) as [[[] ft]|] eqn:Hlf.
-      + destruct (lookup_field env n g) as [[[] gt]|] eqn:Hlg.
-        * rewrite !obind_map.
-          set (A := assign_next env ft (instantiate (field_of ft (aget f fs))) pr x
-                      (store_field ft (field_of ft (aget f fs)) x)).
-          set (B := assign_next env gt (instantiate (field_of gt (aget g fs))) qr y
-                      (store_field gt (field_of gt (aget g fs)) y)).
-          etransitivity.
-          { apply obind_ext. intro a. rewrite (R f g pr qr x y a Hfg), Hlg. fold B. reflexivity. }
-          symmetry. etransitivity.
-          { apply obind_ext. intro b. rewrite (R g f qr pr y x b (not_eq_sym Hfg)), Hlf. fold A. reflexivity. }
-          destruct A, B; simpl; try reflexivity. rewrite ains_comm by congruence. reflexivity.
-        * rewrite obind_map. simpl obind at 2.
-          etransitivity.
-          { apply obind_ext. intro a. rewrite (R f g pr qr x y a Hfg), Hlg. reflexivity. }
-          destruct (assign_next _ _ _ _ _ _); reflexivity.
-        * rewrite obind_map. simpl obind at 2.
-          etransitivity.
-          { apply obind_ext. intro a. rewrite (R f g pr qr x y a Hfg), Hlg. reflexivity. }
-          destruct (assign_next _ _ _ _ _ _); reflexivity.
-      + simpl obind at 1. symmetry.
-        unfold sstep. destruct (lookup_field env n g) as [[[] gt]|] eqn:Hlg; try reflexivity.
-        rewrite obind_map.
+      unfold sstep.
+      destruct (lookup_field env n f) as [[[] ft]|] eqn:Hlf;
+        destruct (lookup_field env n g) as [[[] gt]|] eqn:Hlg;
+        rewrite ?obind_map; simpl obind; try reflexivity.
+      + set (A := assign_next env ft (instantiate (field_of ft (aget f fs))) pr x
+                    (store_field ft (field_of ft (aget f fs)) x)).
+        set (B := assign_next env gt (instantiate (field_of gt (aget g fs))) qr y
+                    (store_field gt (field_of gt (aget g fs)) y)).
         etransitivity.
-        { apply obind_ext. intro b. rewrite (R g f qr pr y x b (not_eq_sym Hfg)), Hlf. reflexivity. }
-        destruct (assign_next _ _ _ _ _ _); reflexivity.
-      + simpl obind at 1. symmetry.
-        unfold sstep. destruct (lookup_field env n g) as [[[] gt]|] eqn:Hlg; try reflexivity.
-        rewrite obind_map.
-        etransitivity.
-        { apply obind_ext. intro b. rewrite (R g f qr pr y x b (not_eq_sym Hfg)), Hlf. reflexivity. }
-        destruct (assign_next _ _ _ _ _ _); reflexivity.
+        { apply obind_ext. intro a. rewrite (R f g pr qr x y a Hfg), Hlg. fold B. reflexivity. }
+        symmetry. etransitivity.
+        { apply obind_ext. intro b. rewrite (R g f qr pr y x b (not_eq_sym Hfg)), Hlf. fold A. reflexivity. }
+        destruct A, B; simpl; try reflexivity. rewrite ains_comm by congruence. reflexivity.
+      + destruct (assign_next _ _ _ _ _ _) as [a|]; simpl; [|reflexivity].
+        rewrite (R f g pr qr x y a Hfg), Hlg. reflexivity.
+      + destruct (assign_next _ _ _ _ _ _) as [a|]; simpl; [|reflexivity].
+        rewrite (R f g pr qr x y a Hfg), Hlg. reflexivity.
+      + destruct (assign_next _ _ _ _ _ _) as [b|]; simpl; [|reflexivity].
+        rewrite (R g f qr pr y x b (not_eq_sym Hfg)), Hlf. reflexivity.
+      + destruct (assign_next _ _ _ _ _ _) as [b|]; simpl; [|reflexivity].
+        rewrite (R g f qr pr y x b (not_eq_sym Hfg)), Hlf. reflexivity.
   Qed.
 End StructStep.
